@@ -323,6 +323,10 @@ theorem byteTop_eq (b0 b1 b2 b3 : Nat) :
   simpa using or8 (b0.testBit 31) (b0.testBit 63) (b1.testBit 31) (b1.testBit 63)
     (b2.testBit 31) (b2.testBit 63) (b3.testBit 31) (b3.testBit 63)
 
+theorem colBits_pieces32_lt (b0 b1 b2 b3 i : ℕ) : colBits (pieces32 b0 b1 b2 b3) i < 256 := by
+  have := colBits_lt (pieces32 b0 b1 b2 b3) i
+  simpa [pieces32] using this
+
 private theorem split32 (b : Nat) (hb : b < 2 ^ 64) :
     b % 2 ^ 32 + 2 ^ 32 * ((b >>> 32) % 2 ^ 32) = b := by
   rw [Nat.shiftRight_eq_div_pow]; omega
